@@ -1,6 +1,6 @@
 (* PG layer: one simulation lemma per action kind:  decidable hypotheses  ->  step_sim s a. *)
 From VV.M1 Require Import BtP.
-From VV.PG Require Export SimP.
+From VV.PG Require Export SimP Hyp.
 From Coq Require Import Lia.
 
 (* ---------- small facts ---------- *)
@@ -62,12 +62,6 @@ Proof.
 Qed.
 
 (* ---------- ModifyColumnComment: COMMENT ON needs the column; the catalog does not change ---------- *)
-Definition hyp_modify_comment (s : schema) (tn cn : string) : bool :=
-  (nodup_str (map t_name s)
-   && match find (fun x => String.eqb (t_name x) tn) s with
-      | Some t => has_column cn t
-      | None => false
-      end)%bool.
 
 Lemma update_first_col_some cn f : forall cols,
   existsb (fun c => String.eqb (c_name c) cn) cols = true -> exists cols', update_first_col cn f cols = Some cols'.
@@ -119,5 +113,726 @@ Proof.
   rewrite (step_schema_ok s _ s') by exact Hup.
   cbn [exec_all exec]. rewrite find_table_catalog_of, Hf. cbn [option_map].
   rewrite has_col_table_cat, H.
-  f_equal. unfold catalog_of. rewrite Hc, He, Hcat. f_equal. now apply replace_same.
+  f_equal. unfold catalog_of. rewrite Hc, He, Hcat. f_equal. symmetry. now apply replace_same.
+Qed.
+
+(* ---------- AddConstraint: Index / Unique (CREATE [UNIQUE] INDEX) and Check (ADD CONSTRAINT ... CHECK) ---------- *)
+
+
+Lemma table_cat_add_index t k n i :
+  is_pk k = false -> con_cat (t_name t) k = [] -> idx_cat (t_name t) k = [(n, i)] ->
+  table_cat (mkTable (t_name t) (t_description t) (t_columns t) (t_constraints t ++ [k]))
+  = with_idx (table_cat t) n i.
+Proof.
+  intros Hpk Hc Hi. unfold table_cat, with_idx. cbn [t_name t_columns t_constraints pt_name pt_cols pt_cons pt_idx].
+  rewrite (first_pk_only_app_notpk k Hpk), !flat_map_app. cbn [flat_map].
+  rewrite Hc, Hi, !app_nil_r, bt_of_list_snoc. f_equal.
+  apply map_ext. apply col_cat_ext; [reflexivity|].
+  unfold pk_of. cbn [t_constraints]. now rewrite (find_app_notpk _ k Hpk).
+Qed.
+
+Lemma table_cat_add_con t k n c :
+  is_pk k = false -> con_cat (t_name t) k = [(n, c)] -> idx_cat (t_name t) k = [] ->
+  table_cat (mkTable (t_name t) (t_description t) (t_columns t) (t_constraints t ++ [k]))
+  = with_con (table_cat t) n c.
+Proof.
+  intros Hpk Hc Hi. unfold table_cat, with_con. cbn [t_name t_columns t_constraints pt_name pt_cols pt_cons pt_idx].
+  rewrite (first_pk_only_app_notpk k Hpk), !flat_map_app. cbn [flat_map].
+  rewrite Hc, Hi, !app_nil_r, bt_of_list_snoc. f_equal.
+  apply map_ext. apply col_cat_ext; [reflexivity|].
+  unfold pk_of. cbn [t_constraints]. now rewrite (find_app_notpk _ k Hpk).
+Qed.
+
+Lemma sim_pg_add_constraint s tn k :
+  hyp_add_constraint s tn k = true -> step_sim s (AddConstraint tn k).
+Proof.
+  unfold hyp_add_constraint. intro H. apply andb_prop in H. destruct H as [Hnd H].
+  destruct (find (fun x => String.eqb (t_name x) tn) s) as [t|] eqn:Hf; [|discriminate].
+  apply andb_prop in H. destruct H as [Hnc H]. apply negb_true_iff in Hnc.
+  pose proof (find_name _ _ _ Hf) as Hname.
+  set (t' := mkTable (t_name t) (t_description t) (t_columns t) (t_constraints t ++ [k])).
+  assert (Hft : (fun t0 : table_def =>
+                   if contains_constraint k (t_constraints t0) then Ok t0
+                   else Ok (mkTable (t_name t0) (t_description t0) (t_columns t0) (t_constraints t0 ++ [k]))) t
+                = @Ok table_def planner_error t').
+  { cbv beta. now rewrite Hnc. }
+  destruct (update_table_spec tn _ s t t' Hnd Hf Hft eq_refl eq_refl) as (s' & Hup & Hc & _).
+  destruct k as [auto cols|n cols|n cols rt rcols od ou|n e|n cols]; try discriminate.
+  - (* Unique *)
+    apply andb_prop in H. destruct H as [Hcols Hfree]. apply negb_true_iff in Hfree.
+    eexists. split; [reflexivity|].
+    rewrite (step_schema_ok s _ s') by exact Hup.
+    cbn [gen_add_constraint exec_all exec]. rewrite find_table_catalog_of, Hf. cbn [option_map].
+    rewrite Hfree, (first_missing_none _ _ Hcols). rewrite Hc. unfold t'.
+    rewrite (table_cat_add_index t _ (build_unique_constraint_name tn cols n) (mkPi cols true false));
+      [reflexivity|reflexivity|reflexivity|cbn [idx_cat]; now rewrite Hname].
+  - (* Check *)
+    apply negb_true_iff in H.
+    eexists. split; [reflexivity|].
+    rewrite (step_schema_ok s _ s') by exact Hup.
+    cbn [gen_add_constraint exec_all exec]. rewrite find_table_catalog_of, Hf. cbn [option_map exec_alter_ops].
+    unfold exec_alter_op. rewrite find_table_catalog_of, Hf. cbn [option_map]. unfold add_check.
+    rewrite find_table_catalog_of, Hf. cbn [option_map]. rewrite H. rewrite Hc. unfold t'.
+    rewrite (table_cat_add_con t _ n (KCheck e)); reflexivity.
+  - (* Index *)
+    apply andb_prop in H. destruct H as [Hcols Hfree]. apply negb_true_iff in Hfree.
+    eexists. split; [reflexivity|].
+    rewrite (step_schema_ok s _ s') by exact Hup.
+    cbn [gen_add_constraint exec_all exec]. rewrite find_table_catalog_of, Hf. cbn [option_map].
+    rewrite Hfree, (first_missing_none _ _ Hcols). rewrite Hc. unfold t'.
+    rewrite (table_cat_add_index t _ (build_index_name tn cols n) (mkPi cols false false));
+      [reflexivity|reflexivity|reflexivity|cbn [idx_cat]; now rewrite Hname].
+Qed.
+
+(* ---------- DeleteTable: DROP TABLE, outside K4 (inbound foreign key) and K8 (string enum column) ---------- *)
+
+Lemma con_cat_fk_to tn t k n c :
+  In (n, c) (con_cat (t_name t) k) ->
+  match c with KFk _ rt _ _ _ => String.eqb rt tn = true -> fk_to tn (fun _ => true) k = true | _ => True end.
+Proof.
+  destruct k; cbn [con_cat]; intro H; try (destruct H as [H|[]]; injection H as <- <-); try exact I;
+    try destruct H.
+  intro E. cbn [fk_to]. now rewrite E.
+Qed.
+
+Lemma In_flat_map_first_pk_only {B} (f : table_constraint -> list B) x : forall ks b,
+  In x (flat_map f (first_pk_only b ks)) -> In x (flat_map f ks).
+Proof.
+  induction ks as [|k r IH]; intros b H; [exact H|].
+  cbn [flat_map]. apply in_or_app.
+  destruct k; cbn [first_pk_only] in H;
+    try (cbn [flat_map] in H; apply in_app_or in H; destruct H as [H|H]; [now left|right; eapply IH; exact H]).
+  destruct b.
+  - right. eapply IH; exact H.
+  - cbn [flat_map] in H. apply in_app_or in H. destruct H as [H|H]; [now left|right; eapply IH; exact H].
+Qed.
+
+Lemma inbound_none tn : forall l : list table_def,
+  forallb (fun x => (String.eqb (t_name x) tn || no_fk_to tn x)%bool) l = true ->
+  flat_map (fun x : pg_table =>
+    if (negb false && String.eqb (pt_name x) tn)%bool then []
+    else flat_map (fun k => match snd k with
+                            | KFk _ rt rcols _ _ => if (String.eqb rt tn && true)%bool then [(pt_name x, fst k)] else []
+                            | _ => []
+                            end) (pt_cons x)) (map table_cat l) = [].
+Proof.
+  induction l as [|x r IH]; intro H; [reflexivity|].
+  cbn [forallb] in H. apply andb_prop in H. destruct H as [Hx Hr].
+  cbn [map flat_map]. rewrite (IH Hr), app_nil_r. rewrite pt_name_table_cat. cbn [negb andb].
+  destruct (String.eqb (t_name x) tn) eqn:E; [reflexivity|].
+  cbn [orb] in Hx. unfold no_fk_to in Hx. apply negb_true_iff in Hx.
+  (* every constraint of table_cat x comes from a constraint of x, none of which is a foreign key to tn *)
+  assert (G : forall (m : list (string * con_kind)),
+            (forall n c, In (n, c) m -> In (n, c) (flat_map (con_cat (t_name x)) (t_constraints x))) ->
+            flat_map (fun k : string * con_kind => match snd k with
+                            | KFk _ rt rcols _ _ => if (String.eqb rt tn && true)%bool then [(t_name x, fst k)] else []
+                            | _ => []
+                            end) m = []).
+  { induction m as [|[n c] m IHm]; intro Hin; [reflexivity|].
+    cbn [flat_map fst snd]. rewrite IHm by (intros; apply Hin; now right). rewrite app_nil_r.
+    destruct c as [| |cols rt rcols od ou|]; try reflexivity.
+    destruct (String.eqb rt tn) eqn:Ert; [|reflexivity]. exfalso.
+    specialize (Hin n _ (or_introl eq_refl)). apply in_flat_map in Hin. destruct Hin as (k & Hk & Hkc).
+    pose proof (con_cat_fk_to tn x k n _ Hkc Ert) as Hfk.
+    assert (existsb (fk_to tn (fun _ => true)) (t_constraints x) = true) by (apply existsb_exists; eauto).
+    congruence. }
+  unfold table_cat at 1. cbn [pt_cons pt_name].
+  apply G. intros n c Hin. apply bt_of_list_in in Hin.
+  eapply In_flat_map_first_pk_only. exact Hin.
+Qed.
+
+Lemma filter_map_table_cat tn : forall l : list table_def,
+  filter (fun t => negb (String.eqb (pt_name t) tn)) (map table_cat l)
+  = map table_cat (filter (fun t => negb (String.eqb (t_name t) tn)) l).
+Proof.
+  induction l as [|x r IH]; [reflexivity|]. cbn [map filter]. rewrite pt_name_table_cat.
+  destruct (negb (String.eqb (t_name x) tn)); cbn [map]; now rewrite IH.
+Qed.
+
+Lemma flat_map_enums_filter tn : forall (l : list table_def) t,
+  nodup_str (map t_name l) = true ->
+  find (fun x => String.eqb (t_name x) tn) l = Some t -> table_enums t = [] ->
+  flat_map table_enums (filter (fun t => negb (String.eqb (t_name t) tn)) l) = flat_map table_enums l.
+Proof.
+  induction l as [|x r IH]; intros t Hnd Hf He; [reflexivity|].
+  cbn [map] in Hnd. apply nodup_str_cons in Hnd. destruct Hnd as [Hx Hr].
+  cbn [find] in Hf. cbn [filter flat_map].
+  destruct (String.eqb (t_name x) tn) eqn:E; cbn [negb].
+  - injection Hf as ->. rewrite He. cbn [app].
+    apply String.eqb_eq in E. subst tn.
+    assert (G : forall l0, (forall y, In y l0 -> String.eqb (t_name y) (t_name t) = false) ->
+              filter (fun t0 => negb (String.eqb (t_name t0) (t_name t))) l0 = l0).
+    { induction l0 as [|y l0 IHl]; intro Hall; [reflexivity|]. cbn [filter].
+      rewrite (Hall y (or_introl eq_refl)). cbn [negb]. f_equal. apply IHl. intros; apply Hall; now right. }
+    rewrite G; [reflexivity|]. now apply mem_str_map_name.
+  - cbn [flat_map]. f_equal. eapply IH; eauto.
+Qed.
+
+Lemma sim_pg_delete_table s tn : hyp_delete_table s tn = true -> step_sim s (DeleteTable tn).
+Proof.
+  unfold hyp_delete_table. intro H.
+  apply andb_prop in H. destruct H as [H He].
+  apply andb_prop in H. destruct H as [H Hfk].
+  apply andb_prop in H. destruct H as [Hnd Hhas].
+  destruct (find (fun x => String.eqb (t_name x) tn) s) as [t|] eqn:Hf; [|discriminate].
+  destruct (table_enums t) eqn:Hen; [|discriminate].
+  exists [SDropTable tn]. split; [reflexivity|].
+  unfold step_schema. cbn [apply_action]. rewrite Hhas.
+  cbn [exec_all exec]. rewrite find_table_catalog_of, Hf. cbn [option_map].
+  unfold inbound_fks. unfold catalog_of at 1. cbn [c_tables].
+  rewrite (inbound_none tn s Hfk).
+  f_equal. unfold set_tables, catalog_of. cbn [c_tables c_enums].
+  rewrite filter_map_table_cat. now rewrite (flat_map_enums_filter tn s t Hnd Hf Hen).
+Qed.
+
+(* ---------- removal from a name-keyed map ---------- *)
+Lemma bt_get_filter_key {V} n k : forall m : list (string * V),
+  bt_get k (filter (fun kv => negb (String.eqb (fst kv) n)) m) = if String.eqb k n then None else bt_get k m.
+Proof.
+  induction m as [|[k' v] r IH]; cbn [filter bt_get fst].
+  - now destruct (String.eqb k n).
+  - destruct (String.eqb k' n) eqn:E; cbn [negb].
+    + rewrite IH. destruct (String.eqb k n) eqn:E2; [reflexivity|].
+      destruct (String.eqb k k') eqn:E3; [|reflexivity].
+      apply String.eqb_eq in E3. subst k'. congruence.
+    + cbn [bt_get]. destruct (String.eqb k k') eqn:E3.
+      * apply String.eqb_eq in E3. subst k'. now rewrite E.
+      * exact IH.
+Qed.
+
+Lemma filter_sorted {V} (p : string * V -> bool) : forall m, bt_sorted m -> bt_sorted (filter p m).
+Proof.
+  unfold bt_sorted. induction 1 as [|a l Hs IH Hall]; cbn [filter]; [constructor|].
+  destruct (p a); [|exact IH]. constructor; [exact IH|].
+  clear - Hall. induction l as [|b l IHl]; cbn [filter]; [constructor|].
+  inversion Hall; subst. destruct (p b); [constructor; auto|auto].
+Qed.
+
+Lemma filter_rev {A} (p : A -> bool) : forall l, filter p (rev l) = rev (filter p l).
+Proof.
+  induction l as [|x r IH]; [reflexivity|]. cbn [rev filter].
+  rewrite filter_app, IH. cbn [filter]. destruct (p x); cbn [rev]; [reflexivity|now rewrite app_nil_r].
+Qed.
+
+Lemma bt_remove_of_list {V} n (l : list (string * V)) :
+  bt_remove n (bt_of_list l) = bt_of_list (filter (fun kv => negb (String.eqb (fst kv) n)) l).
+Proof.
+  unfold bt_remove. apply bt_ext.
+  - apply filter_sorted, bt_of_list_sorted.
+  - apply bt_of_list_sorted.
+  - intro k. rewrite bt_get_filter_key, !bt_get_of_list, <- filter_rev, bt_get_filter_key. reflexivity.
+Qed.
+
+(* filtering the source list of a flat_map by a predicate that decides the keys produced *)
+Lemma flat_map_filter_key {A V} (f : A -> list (string * V)) (p : A -> bool) n : forall l,
+  (forall x, In x l -> forall kv, In kv (f x) -> negb (String.eqb (fst kv) n) = p x) ->
+  flat_map f (filter p l) = filter (fun kv => negb (String.eqb (fst kv) n)) (flat_map f l).
+Proof.
+  induction l as [|x r IH]; intro H; [reflexivity|].
+  cbn [filter flat_map]. rewrite filter_app, <- IH by (intros; eapply H; [now right|eassumption]).
+  assert (Hx : filter (fun kv => negb (String.eqb (fst kv) n)) (f x) = if p x then f x else []).
+  { specialize (H x (or_introl eq_refl)). induction (f x) as [|kv m IHm]; [now destruct (p x)|].
+    cbn [filter]. rewrite (H kv (or_introl eq_refl)).
+    rewrite IHm by (intros; apply H; now right). now destruct (p x). }
+  rewrite Hx. destruct (p x); reflexivity.
+Qed.
+
+Lemma first_pk_only_filter (p : table_constraint -> bool) :
+  (forall k, is_pk k = true -> p k = true) -> forall ks b,
+  first_pk_only b (filter p ks) = filter p (first_pk_only b ks).
+Proof.
+  intros Hp. induction ks as [|k r IH]; intro b; [reflexivity|].
+  cbn [filter]. destruct k as [a cols| | | |];
+    try (destruct (p _) eqn:E; cbn [first_pk_only filter]; rewrite ?E, IH; reflexivity).
+  rewrite (Hp (CPrimaryKey a cols) eq_refl). cbn [first_pk_only].
+  destruct b; cbn [filter]; rewrite ?(Hp (CPrimaryKey a cols) eq_refl), IH; reflexivity.
+Qed.
+
+(* ---------- RemoveConstraint: Index (DROP INDEX), Check / ForeignKey (DROP CONSTRAINT) ---------- *)
+(* the name under which gen drops constraint k of table tn, and whether it is an index *)
+
+
+(* the part of a column definition the catalog looks at *)
+Definition core (c : column_def) := (c_name c, c_type c, c_nullable c, c_default c).
+Lemma col_cat_core t c c' : core c' = core c -> col_cat t c' = col_cat t c.
+Proof.
+  unfold core, col_cat, column_default_text. intro H. injection H as H1 H2 H3 H4. now rewrite H1, H2, H3, H4.
+Qed.
+Lemma map_core_col_cat t cols cols' : map core cols' = map core cols -> map (col_cat t) cols' = map (col_cat t) cols.
+Proof.
+  revert cols'. induction cols as [|c r IH]; intros [|c' r'] H; try discriminate; [reflexivity|].
+  cbn [map] in *. injection H as H1 H2 H3 H4 Hr.
+  assert (Hc : core c' = core c) by (unfold core; congruence).
+  rewrite (col_cat_core t c c' Hc). f_equal. now apply IH.
+Qed.
+Lemma map_core_types cols cols' : map core cols' = map core cols -> map c_type cols' = map c_type cols.
+Proof.
+  revert cols'. induction cols as [|c r IH]; intros [|c' r'] H; try discriminate; [reflexivity|].
+  cbn [map] in *. injection H as _ Ht _ _ Hr. rewrite Ht. f_equal. now apply IH.
+Qed.
+
+Lemma modify_first_core p f : (forall c, core (f c) = core c) -> forall cols, map core (modify_first p f cols) = map core cols.
+Proof.
+  intros Hf. induction cols as [|c r IH]; [reflexivity|]. cbn [modify_first].
+  destruct (p c); cbn [map]; [now rewrite Hf|now rewrite IH].
+Qed.
+Lemma map_core f : (forall c, core (f c) = core c) -> forall cols, map core (map f cols) = map core cols.
+Proof. intros Hf cols. rewrite map_map. apply map_ext. exact Hf. Qed.
+Lemma fold_modify_core (g : string -> column_def -> bool) f : (forall c, core (f c) = core c) ->
+  forall xs cols, map core (fold_left (fun cs x => modify_first (g x) f cs) xs cols) = map core cols.
+Proof.
+  intros Hf. induction xs as [|x r IH]; intro cols; [reflexivity|]. cbn [fold_left].
+  rewrite IH. now apply modify_first_core.
+Qed.
+Lemma clear_index_auto_core tn name : forall cols, map core (clear_index_auto tn name cols) = map core cols.
+Proof.
+  induction cols as [|c r IH]; [reflexivity|]. cbn [clear_index_auto].
+  destruct (dec_b _ _ _); cbn [map]; [reflexivity|now rewrite IH].
+Qed.
+Lemma clear_unique_named_core cn c : core (clear_unique_named cn c) = core c.
+Proof.
+  unfold clear_unique_named. destruct (c_unique c) as [[n|l|b]|]; try reflexivity.
+  - now destruct (String.eqb n cn).
+  - now destruct (filter _ l).
+Qed.
+Lemma clear_index_named_core cn c : core (clear_index_named cn c) = core c.
+Proof.
+  unfold clear_index_named. destruct (c_index c) as [[n|l|b]|]; try reflexivity.
+  - now destruct (String.eqb n cn).
+  - destruct (filter _ l); [reflexivity|]. now destruct (Nat.ltb _ _).
+Qed.
+
+Lemma clear_inline_core tn k cols : map core (clear_inline tn k cols) = map core cols.
+Proof.
+  destruct k as [a pc|n uc|n fc rt rc od ou|n e|n ic]; cbn [clear_inline].
+  - apply (fold_modify_core named). reflexivity.
+  - destruct n as [cn|].
+    + rewrite map_core by apply clear_unique_named_core. reflexivity.
+    + destruct uc as [|x [|y r]]; try reflexivity. apply modify_first_core. reflexivity.
+  - apply (fold_modify_core named). reflexivity.
+  - reflexivity.
+  - destruct n as [cn|].
+    + rewrite map_core by apply clear_index_named_core. apply clear_index_auto_core.
+    + destruct ic as [|x [|y r]]; try apply clear_index_auto_core.
+      rewrite modify_first_core by reflexivity. apply clear_index_auto_core.
+Qed.
+
+Lemma find_filter_keep {A} (q p : A -> bool) : (forall x, q x = true -> p x = true) -> forall l,
+  find q (filter p l) = find q l.
+Proof.
+  intros H. induction l as [|x r IH]; [reflexivity|]. cbn [filter find].
+  destruct (q x) eqn:Eq.
+  - rewrite (H x Eq). cbn [find]. now rewrite Eq.
+  - destruct (p x); cbn [find]; rewrite ?Eq; exact IH.
+Qed.
+
+Lemma flat_map_filter_nil {A B} (f : A -> list B) (p : A -> bool) : forall l,
+  (forall x, In x l -> p x = false -> f x = []) -> flat_map f (filter p l) = flat_map f l.
+Proof.
+  induction l as [|x r IH]; intro H; [reflexivity|]. cbn [filter flat_map].
+  destruct (p x) eqn:E; cbn [flat_map].
+  - f_equal. apply IH. intros; apply H; [now right|assumption].
+  - rewrite (H x (or_introl eq_refl) E). cbn [app]. apply IH. intros; apply H; [now right|assumption].
+Qed.
+
+Lemma In_first_pk_only k : forall ks b, In k (first_pk_only b ks) -> In k ks.
+Proof.
+  induction ks as [|x r IH]; intros b H; [exact H|].
+  destruct x; cbn [first_pk_only] in H; try (destruct H as [H|H]; [now left|right; eapply IH; exact H]).
+  destruct b; [right; eapply IH; exact H|destruct H as [H|H]; [now left|right; eapply IH; exact H]].
+Qed.
+Lemma In_first_pk_only_notpk k : is_pk k = false -> forall ks b, In k ks -> In k (first_pk_only b ks).
+Proof.
+  intros Hk. induction ks as [|x r IH]; intros b H; [exact H|].
+  destruct H as [->|H].
+  - destruct k; try (now left). discriminate.
+  - destruct x; cbn [first_pk_only]; try (right; now apply IH). destruct b; [now apply IH|right; now apply IH].
+Qed.
+
+Lemma constraint_eqb_true a b : constraint_eqb a b = true <-> a = b.
+Proof. unfold constraint_eqb, dec_b. destruct (constraint_eq_dec a b); split; congruence. Qed.
+
+Lemma bt_get_all_same {V} n (v : V) : forall m : list (string * V),
+  (forall kv, In kv m -> fst kv = n -> snd kv = v) -> (exists kv, In kv m /\ fst kv = n) -> bt_get n m = Some v.
+Proof.
+  induction m as [|[k w] r IH]; intros Hall [kv [Hin Hk]]; [destruct Hin|].
+  cbn [bt_get]. destruct (String.eqb n k) eqn:E.
+  - apply String.eqb_eq in E. subst k. f_equal. exact (Hall (n, w) (or_introl eq_refl) eq_refl).
+  - destruct Hin as [<-|Hin].
+    + cbn [fst] in Hk. subst k. now rewrite String.eqb_refl in E.
+    + apply IH; [intros; apply Hall; [now right|assumption]|eauto].
+Qed.
+
+Lemma in_table_cat_unique tn : forall s t T,
+  nodup_str (map t_name s) = true -> find (fun x => String.eqb (t_name x) tn) s = Some t ->
+  In T (map table_cat s) -> pt_name T = tn -> T = table_cat t.
+Proof.
+  induction s as [|x r IH]; intros t T Hnd Hf Hin Hn; [destruct Hin|].
+  cbn [map] in Hnd. apply nodup_str_cons in Hnd. destruct Hnd as [Hx Hr].
+  cbn [find] in Hf. destruct (String.eqb (t_name x) tn) eqn:E.
+  - injection Hf as ->. destruct Hin as [<-|Hin]; [reflexivity|]. exfalso.
+    apply in_map_iff in Hin. destruct Hin as (y & <- & Hy).
+    rewrite pt_name_table_cat in Hn. apply String.eqb_eq in E. rewrite <- Hn in E.
+    pose proof (mem_str_map_name _ _ Hx y Hy) as Hne. rewrite E, String.eqb_refl in Hne. discriminate.
+  - destruct Hin as [<-|Hin]; [|now apply (IH t T)].
+    rewrite pt_name_table_cat in Hn. rewrite Hn, String.eqb_refl in E. discriminate.
+Qed.
+
+Lemma sim_pg_remove_constraint s tn k :
+  hyp_remove_constraint s tn k = true -> step_sim s (RemoveConstraint tn k).
+Proof.
+  unfold hyp_remove_constraint. intro H. apply andb_prop in H. destruct H as [Hnd H].
+  destruct (find (fun x => String.eqb (t_name x) tn) s) as [t|] eqn:Hf; [|discriminate].
+  apply andb_prop in H. destruct H as [H Hk]. apply andb_prop in H. destruct H as [Hin Hinj].
+  pose proof (find_name _ _ _ Hf) as Hname.
+  set (n := dropped_name tn k) in *.
+  set (keep := fun c => negb (constraint_eqb c k)).
+  set (t' := mkTable (t_name t) (t_description t) (clear_inline tn k (t_columns t)) (filter keep (t_constraints t))).
+  assert (Hnotpk : is_pk k = false) by (destruct k; try reflexivity; discriminate).
+  assert (Hkeep_pk : forall c, is_pk c = true -> keep c = true).
+  { intros c Hc. unfold keep. apply negb_true_iff. destruct (constraint_eqb c k) eqn:E; [|reflexivity].
+    apply constraint_eqb_true in E. subst c. congruence. }
+  assert (Hft : (fun t0 : table_def => @Ok table_def planner_error
+                   (mkTable (t_name t0) (t_description t0) (clear_inline tn k (t_columns t0))
+                            (filter (fun c => negb (constraint_eqb c k)) (t_constraints t0)))) t = Ok t') by reflexivity.
+  assert (Hen : table_enums t' = table_enums t).
+  { unfold table_enums, t'. cbn [t_name t_columns]. apply enums_of_cols_ext, map_core_types, clear_inline_core. }
+  destruct (update_table_spec tn _ s t t' Hnd Hf Hft eq_refl Hen) as (s' & Hup & Hc & _).
+  (* names: an entry called n comes from k only *)
+  assert (Hkey : forall x, In x (first_pk_only false (t_constraints t)) ->
+                 forall (nm : string), In nm (names_of tn x) -> negb (String.eqb nm n) = keep x).
+  { intros x Hx nm Hnm. apply In_first_pk_only in Hx. unfold keep.
+    rewrite forallb_forall in Hinj. specialize (Hinj x Hx).
+    destruct (constraint_eqb x k) eqn:E; cbn [negb orb] in *.
+    - apply constraint_eqb_true in E. subst x. apply negb_false_iff, String.eqb_eq.
+      unfold names_of in Hnm. unfold n.
+      destruct k; cbn [con_cat idx_cat map app fst dropped_name] in *;
+        repeat (destruct Hnm as [Hnm|Hnm]; [now subst|]); destruct Hnm.
+    - apply negb_true_iff in Hinj. apply negb_true_iff. apply String.eqb_neq. intros ->.
+      unfold mem_str in Hinj. assert (existsb (String.eqb n) (names_of tn x) = true); [|congruence].
+      apply existsb_exists. exists n. split; [exact Hnm|apply String.eqb_refl]. }
+  assert (Hcols : map (col_cat t') (t_columns t') = map (col_cat t) (t_columns t)).
+  { unfold t' at 2. cbn [t_columns].
+    rewrite (map_ext _ (col_cat t)).
+    - apply map_core_col_cat, clear_inline_core.
+    - apply col_cat_ext; [reflexivity|]. unfold pk_of, t'. cbn [t_constraints].
+      now rewrite (find_filter_keep is_pk keep Hkeep_pk). }
+  assert (Hcons : bt_of_list (flat_map (con_cat (t_name t)) (first_pk_only false (filter keep (t_constraints t))))
+                  = bt_remove n (bt_of_list (flat_map (con_cat (t_name t)) (first_pk_only false (t_constraints t))))).
+  { rewrite (first_pk_only_filter keep Hkeep_pk), bt_remove_of_list. f_equal.
+    apply flat_map_filter_key. intros x Hx kv Hkv. apply (Hkey x Hx). unfold names_of. apply in_or_app. left.
+    rewrite <- Hname. now apply in_map. }
+  assert (Hidx : bt_of_list (flat_map (idx_cat (t_name t)) (first_pk_only false (filter keep (t_constraints t))))
+                  = bt_remove n (bt_of_list (flat_map (idx_cat (t_name t)) (first_pk_only false (t_constraints t))))).
+  { rewrite (first_pk_only_filter keep Hkeep_pk), bt_remove_of_list. f_equal.
+    apply flat_map_filter_key. intros x Hx kv Hkv. apply (Hkey x Hx). unfold names_of. apply in_or_app. right.
+    rewrite <- Hname. now apply in_map. }
+  assert (Hcat : table_cat t' = mkPt (t_name t) (map (col_cat t) (t_columns t))
+                                     (bt_remove n (pt_cons (table_cat t))) (bt_remove n (pt_idx (table_cat t)))).
+  { unfold table_cat at 1. rewrite Hcols. unfold t'. cbn [t_name t_constraints]. rewrite Hcons, Hidx. reflexivity. }
+  (* removing a name that is not a key changes nothing *)
+  assert (Hnokey : forall {V} (f : table_constraint -> list (string * V)),
+            (forall x, In x (first_pk_only false (t_constraints t)) -> forall kv, In kv (f x) -> In (fst kv) (names_of tn x)) ->
+            f k = [] ->
+            bt_remove n (bt_of_list (flat_map f (first_pk_only false (t_constraints t))))
+            = bt_of_list (flat_map f (first_pk_only false (t_constraints t)))).
+  { intros V f Hsub Hfk. rewrite bt_remove_of_list. f_equal.
+    rewrite <- (flat_map_filter_key f keep n).
+    - apply flat_map_filter_nil. intros x Hx E. unfold keep in E. apply negb_false_iff, constraint_eqb_true in E. now subst x.
+    - intros x Hx kv Hkv. apply (Hkey x Hx). now apply (Hsub x Hx). }
+  assert (Hsub_con : forall x, In x (first_pk_only false (t_constraints t)) -> forall kv, In kv (con_cat (t_name t) x) -> In (fst kv) (names_of tn x)).
+  { intros x _ kv Hkv. unfold names_of. apply in_or_app. left. rewrite <- Hname. now apply in_map. }
+  assert (Hsub_idx : forall x, In x (first_pk_only false (t_constraints t)) -> forall kv, In kv (idx_cat (t_name t) x) -> In (fst kv) (names_of tn x)).
+  { intros x _ kv Hkv. unfold names_of. apply in_or_app. right. rewrite <- Hname. now apply in_map. }
+  assert (Hidx_same : idx_cat (t_name t) k = [] -> bt_remove n (pt_idx (table_cat t)) = pt_idx (table_cat t)).
+  { intro E. exact (Hnokey _ (idx_cat (t_name t)) Hsub_idx E). }
+  assert (Hcon_same : con_cat (t_name t) k = [] -> bt_remove n (pt_cons (table_cat t)) = pt_cons (table_cat t)).
+  { intro E. exact (Hnokey _ (con_cat (t_name t)) Hsub_con E). }
+  assert (Hink : In k (first_pk_only false (t_constraints t))).
+  { apply In_first_pk_only_notpk; [exact Hnotpk|]. unfold contains_constraint in Hin.
+    apply existsb_exists in Hin. destruct Hin as (x & Hx & E). unfold constraint_eqb, dec_b in E.
+    destruct (constraint_eq_dec k x); [now subst|discriminate]. }
+  destruct k as [a pc|un uc|fn fc rt rc od ou|cn ce|inn ic]; try discriminate.
+  - (* ForeignKey: ALTER TABLE .. DROP CONSTRAINT fk_name *)
+    eexists. split; [reflexivity|].
+    rewrite (step_schema_ok s _ s') by exact Hup.
+    cbn [gen_remove_constraint exec_all exec]. rewrite find_table_catalog_of, Hf. cbn [option_map exec_alter_ops].
+    unfold exec_alter_op. rewrite find_table_catalog_of, Hf. cbn [option_map].
+    change (build_foreign_key_name tn fc fn) with n.
+    assert (Hget : bt_get n (pt_cons (table_cat t)) = Some (KFk fc rt rc (norm_act od) (norm_act ou))).
+    { unfold table_cat. cbn [pt_cons]. rewrite bt_get_of_list. apply bt_get_all_same.
+      - intros kv Hkv Hfst. apply in_rev in Hkv. apply in_flat_map in Hkv. destruct Hkv as (x & Hx & Hkv).
+        assert (keep x = false).
+        { rewrite <- (Hkey x Hx (fst kv)); [rewrite Hfst, String.eqb_refl; reflexivity|now apply (Hsub_con x Hx)]. }
+        unfold keep in H. apply negb_false_iff, constraint_eqb_true in H. subst x.
+        cbn [con_cat] in Hkv. destruct Hkv as [<-|[]]. reflexivity.
+      - exists (n, KFk fc rt rc (norm_act od) (norm_act ou)). split; [|reflexivity].
+        apply -> in_rev. apply in_flat_map. exists (CForeignKey fn fc rt rc od ou). split; [exact Hink|].
+        cbn [con_cat]. left. unfold n. cbn [dropped_name]. now rewrite Hname. }
+    rewrite Hget. cbn iota. rewrite Hc, Hcat.
+    rewrite (Hidx_same eq_refl). reflexivity.
+  - (* Check *)
+    eexists. split; [reflexivity|].
+    rewrite (step_schema_ok s _ s') by exact Hup.
+    cbn [gen_remove_constraint exec_all exec]. rewrite find_table_catalog_of, Hf. cbn [option_map exec_alter_ops].
+    unfold exec_alter_op. rewrite find_table_catalog_of, Hf. cbn [option_map]. change cn with n.
+    assert (Hget : bt_get n (pt_cons (table_cat t)) = Some (KCheck ce)).
+    { unfold table_cat. cbn [pt_cons]. rewrite bt_get_of_list. apply bt_get_all_same.
+      - intros kv Hkv Hfst. apply in_rev in Hkv. apply in_flat_map in Hkv. destruct Hkv as (x & Hx & Hkv).
+        assert (keep x = false).
+        { rewrite <- (Hkey x Hx (fst kv)); [rewrite Hfst, String.eqb_refl; reflexivity|now apply (Hsub_con x Hx)]. }
+        unfold keep in H. apply negb_false_iff, constraint_eqb_true in H. subst x.
+        cbn [con_cat] in Hkv. destruct Hkv as [<-|[]]. reflexivity.
+      - exists (n, KCheck ce). split; [|reflexivity].
+        apply -> in_rev. apply in_flat_map. exists (CCheck cn ce). split; [exact Hink|]. cbn [con_cat]. now left. }
+    rewrite Hget. cbn iota. rewrite Hc, Hcat.
+    rewrite (Hidx_same eq_refl). reflexivity.
+  - (* Index: DROP INDEX *)
+    destruct (find (fun T => bt_mem n (pt_idx T)) (c_tables (catalog_of s))) as [T|] eqn:HT; [|discriminate].
+    apply String.eqb_eq in Hk.
+    assert (T = table_cat t).
+    { apply find_some in HT. destruct HT as [HTin _]. now apply (in_table_cat_unique tn s t T Hnd Hf HTin Hk). }
+    subst T.
+    eexists. split; [reflexivity|].
+    rewrite (step_schema_ok s _ s') by exact Hup.
+    cbn [gen_remove_constraint exec_all exec]. change (build_index_name tn ic inn) with n. rewrite HT.
+    assert (Hget : bt_get n (pt_idx (table_cat t)) = Some (mkPi ic false false)).
+    { unfold table_cat. cbn [pt_idx]. rewrite bt_get_of_list. apply bt_get_all_same.
+      - intros kv Hkv Hfst. apply in_rev in Hkv. apply in_flat_map in Hkv. destruct Hkv as (x & Hx & Hkv).
+        assert (keep x = false).
+        { rewrite <- (Hkey x Hx (fst kv)); [rewrite Hfst, String.eqb_refl; reflexivity|now apply (Hsub_idx x Hx)]. }
+        unfold keep in H. apply negb_false_iff, constraint_eqb_true in H. subst x.
+        cbn [idx_cat] in Hkv. destruct Hkv as [<-|[]]. reflexivity.
+      - exists (n, mkPi ic false false). split; [|reflexivity].
+        apply -> in_rev. apply in_flat_map. exists (CIndex inn ic). split; [exact Hink|].
+        cbn [idx_cat]. left. unfold n. cbn [dropped_name]. now rewrite Hname. }
+    rewrite Hget. cbn [pi_con]. unfold fk_needing_index. cbn [pi_unique negb].
+    rewrite Hc, Hcat, (Hcon_same eq_refl), !pt_name_table_cat. rewrite Hname. reflexivity.
+Qed.
+
+(* ---------- AddColumn, plain path: no enum type, no back-fill sequence, no inline constraint to promote ---------- *)
+
+
+Lemma enums_of_cols_snoc_plain tn col : is_enum_type (c_type col) = false -> forall cols seen,
+  enums_of_cols tn (cols ++ [col]) seen = enums_of_cols tn cols seen.
+Proof.
+  intro Hne. induction cols as [|c r IH]; intro seen; cbn [app enums_of_cols].
+  - destruct (c_type col); try reflexivity. discriminate.
+  - destruct (c_type c); try apply IH.
+    destruct (ev_is_integer values || mem_str name seen)%bool; [apply IH|]. f_equal. apply IH.
+Qed.
+
+Lemma sim_pg_add_column s tn col fw :
+  hyp_add_column s tn col fw = true -> step_sim s (AddColumn tn col fw).
+Proof.
+  unfold hyp_add_column. intro H. apply andb_prop in H. destruct H as [Hnd H].
+  destruct (find (fun x => String.eqb (t_name x) tn) s) as [t|] eqn:Hf; [|discriminate].
+  cbv zeta in H.
+  repeat (apply andb_prop in H; destruct H as [H ?]).
+  rename H into Hnew, H0 into Hpk, H1 into Hres, H2 into Hnorm, H3 into Hbf, H4 into Hne.
+  apply negb_true_iff in Hnew, Hne, Hbf.
+  pose proof (find_name _ _ _ Hf) as Hname.
+  set (t' := mkTable (t_name t) (t_description t) (t_columns t ++ [col]) (t_constraints t)) in *.
+  destruct (normalize t') as [nt|] eqn:En; [|discriminate].
+  unfold table_def_eqb, dec_b in Hnorm. destruct (table_def_eq_dec nt t') as [->|]; [|discriminate].
+  assert (Hft : (fun t0 : table_def =>
+                  if has_column (c_name col) t0 then Err (ColumnExists tn (c_name col))
+                  else match normalize (mkTable (t_name t0) (t_description t0) (t_columns t0 ++ [col]) (t_constraints t0)) with
+                       | Err _ => Err TableValidation
+                       | Ok n => Ok n
+                       end) t = @Ok table_def planner_error t').
+  { cbv beta. rewrite Hnew. fold t'. now rewrite En. }
+  assert (Hen : table_enums t' = table_enums t).
+  { unfold table_enums, t'. cbn [t_name t_columns]. now apply enums_of_cols_snoc_plain. }
+  destruct (update_table_spec tn _ s t t' Hnd Hf Hft eq_refl Hen) as (s' & Hup & Hc & _).
+  exists [SAlterTable tn [AAddColumn (sea_coldef tn col)]]. split.
+  - cbn [gen]. unfold gen_add_column. fold (needs_backfill col fw). rewrite Hbf.
+    unfold create_enum_type. destruct (c_type col); try reflexivity. discriminate.
+  - rewrite (step_schema_ok s _ s') by exact Hup.
+    cbn [exec_all exec]. rewrite find_table_catalog_of, Hf. cbn [option_map exec_alter_ops].
+    unfold exec_alter_op. rewrite find_table_catalog_of, Hf. cbn [option_map].
+    unfold sea_coldef at 1. cbn [cd_name]. rewrite has_col_table_cat, Hnew.
+    unfold mk_col, sea_coldef. cbn [cd_type cd_name cd_notnull cd_default cd_pk].
+    destruct (resolve_type (catalog_of s) (sea_type tn (c_type col))) as [[x b]|]; [|discriminate].
+    destruct b; [discriminate|]. apply String.eqb_eq in Hres. subst x.
+    rewrite Hc. f_equal. f_equal.
+    unfold table_cat, t'. cbn [t_name t_columns t_constraints pt_name pt_cols pt_cons pt_idx].
+    f_equal. rewrite map_app. cbn [map]. f_equal.
+    f_equal. unfold col_cat. cbn [t_name t_constraints]. rewrite Hname.
+    unfold pk_of in *. cbn [t_constraints].
+    destruct (find is_pk (t_constraints t)) as [[a cols| | | |]|]; try (now rewrite orb_false_r).
+    apply negb_true_iff in Hpk. rewrite Hpk. cbn [andb]. rewrite orb_false_r. now destruct a.
+Qed.
+
+(* ---------- DeleteColumn, plain path ---------- *)
+Lemma filter_all {A} (p : A -> bool) : forall l, (forall x, In x l -> p x = true) -> filter p l = l.
+Proof.
+  induction l as [|x r IH]; intro H; [reflexivity|]. cbn [filter].
+  rewrite (H x (or_introl eq_refl)). f_equal. apply IH. intros; apply H; now right.
+Qed.
+
+Lemma drop_in_absent cn : forall l, mem_str cn l = false -> drop_in cn l = l.
+Proof.
+  unfold drop_in, mem_str. induction l as [|x r IH]; intro H; [reflexivity|].
+  cbn [existsb] in H. apply orb_false_iff in H. destruct H as [H1 H2].
+  cbn [filter]. rewrite BtP.str_eqb_sym, H1. cbn [negb]. f_equal. now apply IH.
+Qed.
+
+Lemma drop_constraints_avoid cn : forall ks,
+  forallb (constraint_avoids cn) ks = true -> drop_column_from_constraints cn ks = ks.
+Proof.
+  unfold drop_column_from_constraints. induction ks as [|k r IH]; intro H; [reflexivity|].
+  cbn [forallb] in H. apply andb_prop in H. destruct H as [Hk Hr].
+  cbn [flat_map]. rewrite (IH Hr).
+  destruct k as [a cols|n cols|n cols rt rcols od ou|n e|n cols]; cbn [constraint_avoids drop_column_from_constraint] in *.
+  - apply andb_prop in Hk. destruct Hk as [H1 H2]. apply negb_true_iff in H1.
+    rewrite (drop_in_absent cn cols H1), H2. reflexivity.
+  - apply andb_prop in Hk. destruct Hk as [H1 H2]. apply negb_true_iff in H1.
+    rewrite (drop_in_absent cn cols H1), H2. reflexivity.
+  - repeat (apply andb_prop in Hk; destruct Hk as [Hk ?]). apply negb_true_iff in Hk, H1.
+    rewrite (drop_in_absent cn cols Hk), (drop_in_absent cn rcols H1), H0, H. reflexivity.
+  - reflexivity.
+  - apply andb_prop in Hk. destruct Hk as [H1 H2]. apply negb_true_iff in H1.
+    rewrite (drop_in_absent cn cols H1), H2. reflexivity.
+Qed.
+
+Lemma enums_of_cols_filter_plain tn cn : forall cols seen,
+  (forall c, In c cols -> String.eqb (c_name c) cn = true -> is_enum_type (c_type c) = false) ->
+  enums_of_cols tn (filter (fun c => negb (String.eqb (c_name c) cn)) cols) seen = enums_of_cols tn cols seen.
+Proof.
+  induction cols as [|c r IH]; intros seen H; [reflexivity|]. cbn [filter].
+  destruct (String.eqb (c_name c) cn) eqn:E; cbn [negb].
+  - rewrite IH by (intros; apply H; [now right|assumption]).
+    cbn [enums_of_cols]. pose proof (H c (or_introl eq_refl) E) as Hne.
+    destruct (c_type c); try reflexivity. discriminate.
+  - cbn [enums_of_cols]. destruct (c_type c); try (apply IH; intros; apply H; [now right|assumption]).
+    destruct (ev_is_integer values || mem_str name seen)%bool.
+    + apply IH; intros; apply H; [now right|assumption].
+    + f_equal. apply IH; intros; apply H; [now right|assumption].
+Qed.
+
+Lemma find_col_unique cn : forall cols c,
+  nodup_str (map c_name cols) = true -> find (fun x => String.eqb (c_name x) cn) cols = Some c ->
+  forall x, In x cols -> String.eqb (c_name x) cn = true -> x = c.
+Proof.
+  induction cols as [|y r IH]; intros c Hnd Hf x Hin Hx; [destruct Hin|].
+  cbn [map] in Hnd. apply nodup_str_cons in Hnd. destruct Hnd as [Hy Hr].
+  cbn [find] in Hf. destruct (String.eqb (c_name y) cn) eqn:E.
+  - injection Hf as <-. destruct Hin as [->|Hin]; [reflexivity|]. exfalso.
+    apply String.eqb_eq in E, Hx. unfold mem_str in Hy.
+    assert (existsb (String.eqb (c_name y)) (map c_name r) = true); [|congruence].
+    apply existsb_exists. exists (c_name x). split; [now apply in_map|]. rewrite E, Hx. apply String.eqb_refl.
+  - destruct Hin as [->|Hin]; [congruence|]. now apply (IH c).
+Qed.
+
+(* inbound foreign keys restricted by a predicate on the referenced columns *)
+Lemma inbound_none_p tn (pr : list string -> bool) : forall l : list table_def,
+  forallb (fun x => (String.eqb (t_name x) tn || negb (existsb (fk_to tn pr) (t_constraints x)))%bool) l = true ->
+  flat_map (fun x : pg_table =>
+    if (negb false && String.eqb (pt_name x) tn)%bool then []
+    else flat_map (fun k => match snd k with
+                            | KFk _ rt rcols _ _ => if (String.eqb rt tn && pr rcols)%bool then [(pt_name x, fst k)] else []
+                            | _ => []
+                            end) (pt_cons x)) (map table_cat l) = [].
+Proof.
+  induction l as [|x r IH]; intro H; [reflexivity|].
+  cbn [forallb] in H. apply andb_prop in H. destruct H as [Hx Hr].
+  cbn [map flat_map]. rewrite (IH Hr), app_nil_r. rewrite pt_name_table_cat. cbn [negb andb].
+  destruct (String.eqb (t_name x) tn) eqn:E; [reflexivity|].
+  cbn [orb] in Hx. apply negb_true_iff in Hx.
+  assert (G : forall (m : list (string * con_kind)),
+            (forall n c, In (n, c) m -> In (n, c) (flat_map (con_cat (t_name x)) (t_constraints x))) ->
+            flat_map (fun k : string * con_kind => match snd k with
+                            | KFk _ rt rcols _ _ => if (String.eqb rt tn && pr rcols)%bool then [(t_name x, fst k)] else []
+                            | _ => []
+                            end) m = []).
+  { induction m as [|[n c] m IHm]; intro Hin; [reflexivity|].
+    cbn [flat_map fst snd]. rewrite IHm by (intros; apply Hin; now right). rewrite app_nil_r.
+    destruct c as [| |cols rt rcols od ou|]; try reflexivity.
+    destruct (String.eqb rt tn && pr rcols)%bool eqn:Ert; [|reflexivity]. exfalso.
+    apply andb_prop in Ert. destruct Ert as [Ert Epr].
+    specialize (Hin n _ (or_introl eq_refl)). apply in_flat_map in Hin. destruct Hin as (k & Hk & Hkc).
+    assert (existsb (fk_to tn pr) (t_constraints x) = true); [|congruence].
+    apply existsb_exists. exists k. split; [exact Hk|].
+    destruct k as [a pc|un uc|fn fc frt frc od' ou'|cn' ce|inn ic]; cbn [con_cat] in Hkc.
+    - destruct Hkc as [E0|[]]. discriminate E0.
+    - destruct Hkc.
+    - destruct Hkc as [E0|[]]. injection E0 as _ _ -> -> _ _. cbn [fk_to]. now rewrite Ert, Epr.
+    - destruct Hkc as [E0|[]]. discriminate E0.
+    - destruct Hkc. }
+  unfold table_cat at 1. cbn [pt_cons pt_name].
+  apply G. intros n c Hin. apply bt_of_list_in in Hin.
+  eapply In_flat_map_first_pk_only. exact Hin.
+Qed.
+
+Lemma filter_cols_cat t t2 cn : (forall c, col_cat t2 c = col_cat t c) -> forall cols,
+  filter (fun x => negb (String.eqb (pc_name x) cn)) (map (col_cat t) cols)
+  = map (col_cat t2) (filter (fun c => negb (String.eqb (c_name c) cn)) cols).
+Proof.
+  intros He. induction cols as [|c r IH]; [reflexivity|]. cbn [map filter].
+  unfold col_cat at 1. cbn [pc_name].
+  destruct (String.eqb (c_name c) cn); cbn [negb map]; [exact IH|]. rewrite He. f_equal. exact IH.
+Qed.
+
+Lemma sim_pg_delete_column s tn cn : hyp_delete_column s tn cn = true -> step_sim s (DeleteColumn tn cn).
+Proof.
+  unfold hyp_delete_column. intro H.
+  apply andb_prop in H. destruct H as [H Ht]. apply andb_prop in H. destruct H as [Hnd Hfk].
+  destruct (find (fun x => String.eqb (t_name x) tn) s) as [t|] eqn:Hf; [|discriminate].
+  repeat (apply andb_prop in Ht; destruct Ht as [Ht ?]).
+  rename Ht into Hhas, H into Havoid, H0 into Hcnd, H1 into Hplain.
+  destruct (find (fun c => String.eqb (c_name c) cn) (t_columns t)) as [c0|] eqn:Hc0; [|discriminate].
+  apply negb_true_iff in Hplain.
+  pose proof (find_name _ _ _ Hf) as Hname.
+  set (t' := mkTable (t_name t) (t_description t)
+                     (filter (fun c => negb (String.eqb (c_name c) cn)) (t_columns t))
+                     (drop_column_from_constraints cn (t_constraints t))).
+  assert (Hft : (fun t0 : table_def =>
+                   if has_column cn t0
+                   then Ok (mkTable (t_name t0) (t_description t0)
+                                    (filter (fun c => negb (String.eqb (c_name c) cn)) (t_columns t0))
+                                    (drop_column_from_constraints cn (t_constraints t0)))
+                   else Err (ColumnNotFound tn cn)) t = @Ok table_def planner_error t').
+  { cbv beta. now rewrite Hhas. }
+  assert (Hen : table_enums t' = table_enums t).
+  { unfold table_enums, t'. cbn [t_name t_columns]. apply enums_of_cols_filter_plain.
+    intros c Hc Ec. now rewrite (find_col_unique cn _ c0 Hcnd Hc0 c Hc Ec). }
+  destruct (update_table_spec tn _ s t t' Hnd Hf Hft eq_refl Hen) as (s' & Hup & Hc & _).
+  exists [SAlterTable tn [ADropColumn cn]]. split.
+  - cbn [gen]. unfold gen_delete_column, find_column_s, find_table_s. rewrite Hf, Hc0.
+    destruct (c_type c0); try reflexivity. discriminate.
+  - rewrite (step_schema_ok s _ s') by exact Hup.
+    cbn [exec_all exec]. rewrite find_table_catalog_of, Hf. cbn [option_map exec_alter_ops].
+    unfold exec_alter_op. rewrite find_table_catalog_of, Hf. cbn [option_map].
+    rewrite has_col_table_cat, Hhas. cbn [negb].
+    unfold inbound_fks. unfold catalog_of at 1. cbn [c_tables].
+    rewrite (inbound_none_p tn (mem_str cn) s Hfk).
+    rewrite Hc. f_equal. f_equal. f_equal.
+    unfold table_cat at 4. unfold t'. cbn [t_name t_columns t_constraints].
+    rewrite (drop_constraints_avoid cn _ Havoid).
+    unfold table_cat. cbn [pt_name pt_cols pt_cons pt_idx]. f_equal.
+    + (* columns *)
+      apply filter_cols_cat. apply col_cat_ext; reflexivity.
+    + (* no constraint involves the column *)
+      apply filter_all. intros [n k] Hin. cbn [snd]. apply negb_true_iff.
+      apply bt_of_list_in in Hin. apply In_flat_map_first_pk_only in Hin.
+      apply in_flat_map in Hin. destruct Hin as (x & Hx & Hk).
+      rewrite forallb_forall in Havoid. specialize (Havoid x Hx).
+      destruct x as [a pc|un uc|fn fc frt frc od' ou'|cn' ce|inn ic]; cbn [con_cat constraint_avoids] in *.
+      * destruct Hk as [E0|[]]. injection E0 as <- <-. cbn [con_involves].
+        apply andb_prop in Havoid. destruct Havoid as [A _]. now apply negb_true_iff in A.
+      * destruct Hk.
+      * destruct Hk as [E0|[]]. injection E0 as <- <-. cbn [con_involves].
+        repeat (apply andb_prop in Havoid; destruct Havoid as [Havoid ?]).
+        apply negb_true_iff in Havoid, H1. rewrite Havoid, H1. now rewrite andb_false_r.
+      * destruct Hk as [E0|[]]. injection E0 as <- <-. cbn [con_involves]. now apply negb_true_iff in Havoid.
+      * destruct Hk.
+    + apply filter_all. intros [n i] Hin. cbn [snd]. apply negb_true_iff.
+      apply bt_of_list_in in Hin. apply In_flat_map_first_pk_only in Hin.
+      apply in_flat_map in Hin. destruct Hin as (x & Hx & Hk).
+      rewrite forallb_forall in Havoid. specialize (Havoid x Hx).
+      destruct x as [a pc|un uc|fn fc frt frc od' ou'|cn' ce|inn ic]; cbn [idx_cat constraint_avoids] in *;
+        try (destruct Hk; fail);
+        destruct Hk as [E0|[]]; injection E0 as <- <-; cbn [pi_cols];
+        apply andb_prop in Havoid; destruct Havoid as [A _]; now apply negb_true_iff in A.
 Qed.
